@@ -268,10 +268,40 @@ func ruleNoWrapF(w *World, r *Report, f *ssa.Function) {
 				good = true
 			}
 		}
+		if !good {
+			// a module helper that returns the sum of two of its parameters
+			if hc, isCall := v.(*ssa.Call); isCall && calleeOf(hc) != nil && w.InModule(calleeOf(hc)) && calleeOf(hc).Blocks != nil {
+				g := calleeOf(hc)
+				allSum := len(returnsOf(g)) > 0
+				var ia, ib int
+				for _, ret := range returnsOf(g) {
+					hb, isB := resolve(ret.Results[0]).(*ssa.BinOp)
+					if len(ret.Results) != 1 || !isB || hb.Op != token.ADD {
+						allSum = false
+						break
+					}
+					ia, ib = paramIndex(g, resolve(hb.X)), paramIndex(g, resolve(hb.Y))
+					if ia < 0 || ib < 0 {
+						allSum = false
+					}
+				}
+				if allSum && ia < len(hc.Call.Args) && ib < len(hc.Call.Args) {
+					x, y := hc.Call.Args[ia], hc.Call.Args[ib]
+					kx, ky := ke.Eval(x), ke.Eval(y)
+					_, px := resolve(x).(*ssa.Parameter)
+					_, py := resolve(y).(*ssa.Parameter)
+					if (kx != nil && kx.Scalar == ks(kF) && py) || (ky != nil && ky.Scalar == ks(kF) && px) {
+						good = true
+					}
+				}
+			}
+		}
 		if good {
 			r.Add(Obligation{Rule: "NOWRAP-F", Key: key, Pos: pos, Status: Discharged, Detail: "vertical field = Z() + dv", Canary: can})
+		} else if why := nonSumEvidence(w, v, 0); why != "" {
+			r.Add(Obligation{Rule: "NOWRAP-F", Key: key, Pos: pos, Status: Violated, Detail: "the printed vertical index is not the plain sum of the parsed index and dv: " + why + " (" + describeValue(fv) + "); the vertical axis must be advanced without bound, exactly", Canary: can})
 		} else {
-			r.Add(Obligation{Rule: "NOWRAP-F", Key: key, Pos: pos, Status: Violated, Detail: "the printed vertical index is not the plain sum of the parsed index and dv (" + describeValue(fv) + "): the vertical axis must be advanced without bound", Canary: can})
+			r.Add(Obligation{Rule: "NOWRAP-F", Key: key, Pos: pos, Status: Undecided, Detail: "the printed vertical index (" + describeValue(fv) + ") was not recognised as the plain sum of the parsed index and dv", Canary: can})
 		}
 	}
 	if n == 0 {
@@ -310,8 +340,65 @@ func ruleZoomPassthru(w *World, r *Report) {
 			if good {
 				r.add("PASSTHRU", key, w.Pos(f.Pos()), Discharged, "zoom field printed from the parsed "+kindNames[it.k])
 			} else {
-				r.add("PASSTHRU", key, w.Pos(f.Pos()), Violated, "zoom field "+fmtInt(it.i)+" is not the parsed zoom printed unchanged")
+				// positive evidence: arithmetic on the zoom, a constant, or a value of another kind
+				st := Undecided
+				rv := resolve(v)
+				if _, isB := rv.(*ssa.BinOp); isB {
+					st = Violated
+				}
+				if _, isK := rv.(*ssa.Const); isK {
+					st = Violated
+				}
+				if av := ke.Eval(v); av != nil && av.Scalar != 0 && av.Scalar&ks(it.k) == 0 {
+					st = Violated
+				}
+				r.add("PASSTHRU", key, w.Pos(f.Pos()), st, "zoom field "+fmtInt(it.i)+" is not (recognised as) the parsed zoom printed unchanged ("+describeValue(v)+")")
 			}
 		}
 	}
+}
+
+// nonSumEvidence: positive evidence that an integer value is more than a sum
+// of its inputs: a remainder / mask / shift / division, a float detour, a
+// math.Mod, or a choice between different values (phi); followed into module
+// helpers.  "" if nothing of the kind is seen.
+func nonSumEvidence(w *World, v ssa.Value, depth int) string {
+	if depth > 6 {
+		return ""
+	}
+	switch x := resolve(v).(type) {
+	case *ssa.BinOp:
+		switch x.Op {
+		case token.REM, token.QUO, token.AND, token.OR, token.SHR, token.SHL, token.MUL, token.AND_NOT, token.XOR:
+			return "it goes through " + x.Op.String() + " (" + shortInstr(x) + ")"
+		}
+		if s := nonSumEvidence(w, x.X, depth+1); s != "" {
+			return s
+		}
+		return nonSumEvidence(w, x.Y, depth+1)
+	case *ssa.Convert:
+		if isFloatType(x.X.Type()) {
+			return "it is converted from a float64 (" + shortInstr(x) + "): integers beyond 2^53 are not exact"
+		}
+		return nonSumEvidence(w, x.X, depth+1)
+	case *ssa.Phi:
+		return "it is chosen between different values (" + shortInstr(x) + ")"
+	case *ssa.Call:
+		if calleeIs(x, "math", "Mod") || calleeIs(x, "math", "Floor") || calleeIs(x, "math", "Trunc") {
+			return "it goes through math." + calleeOf(x).Name()
+		}
+		if bn := builtinName(x); bn == "min" || bn == "max" {
+			return "it is clamped with " + bn
+		}
+		if g := calleeOf(x); g != nil && w.InModule(g) && g.Blocks != nil && accessorField(g) == nil {
+			for _, ret := range returnsOf(g) {
+				if len(ret.Results) == 1 {
+					if s := nonSumEvidence(w, ret.Results[0], depth+1); s != "" {
+						return "in " + w.FuncName(g) + " " + s
+					}
+				}
+			}
+		}
+	}
+	return ""
 }
